@@ -130,14 +130,14 @@ func UpdownList(ref, aln string) (string, error) {
 
 // TopRankingOpts mirrors the command-line options of updown topranking.
 type TopRankingOpts struct {
-	Table                                        bool
-	Ignore                                       []string
+	Table                                           bool
+	Ignore                                          []string
 	SizeTotal, SizeUp, SizeDown, SizeSide, SizeSame int
-	DistAll, DistUp, DistDown, DistSide          int
-	ThreshPair                                   float32
-	ThreshTarget                                 int
-	NoFill                                       bool
-	DistPush                                     int
+	DistAll, DistUp, DistDown, DistSide             int
+	ThreshPair                                      float32
+	ThreshTarget                                    int
+	NoFill                                          bool
+	DistPush                                        int
 }
 
 func TopRanking(query, target, ref string, qtype, ttype string, o TopRankingOpts) (string, error) {
